@@ -67,10 +67,10 @@ Local Open Scope N_scope.
 Theorem C03_joiner_gets_asset :
   forall n w0 tr1 c tr2 s',
     let tr := tr1 ++ AJoin c None :: tr2 in
-    arun (ainit n) tr = Some s' -> joins_ok (ainit n) tr -> handover_at_quiescence w0 (ainit n) tr = true ->
+    arun (ainit n) tr = Some s' -> fresh_joins tr -> handover_at_quiescence w0 (ainit n) tr = true ->
     aquiescent s' ->
     c ∈ aconn s' /\ pstore s' c = pstore s' host /\ pstore s' c = last (published tr).
-Proof. exact join_gets_asset. Qed.
+Proof. exact join_gets_asset_any_join. Qed.
 
 (* materials: joins at any moment, no window *)
 Theorem C03_joiner_gets_material :
@@ -79,13 +79,6 @@ Theorem C03_joiner_gets_material :
     forall q, mpeers s' q -> mpstore s' q = last (mpublished tr).
 Proof. exact M06_handover. Qed.
 
-(* Known finding S26 (open, reproduced on the real code) *)
-Theorem C03_join_during_host_download_refuted :
-  exists n tr c s',
-    arun (ainit n) tr = Some s' /\ published tr = [10; 20] /\ only_publisher 1 tr /\ fresh_joins tr /\ aquiescent s' /\
-    known_join_window (ainit n) tr = true /\
-    c ∈ aconn s' /\ pstore s' 0 = Some 20 /\ pstore s' 1 = Some 20 /\ pstore s' c = Some 10.
-Proof. exact join_during_overwrite_refuted. Qed.
 End A.
 
 (* ---------------- the snapshot itself (frame-level model, every peer state) ---------------------- *)
@@ -112,13 +105,37 @@ Theorem C03_snapshot_has_every_value :
         end) (build_full_sync pr).2.
 Proof. exact snapshot_complete_comp. Qed.
 
-(* every asset of an enabled URL class is announced with this peer as owner AND served by it *)
+(* every asset of an enabled URL class is announced: with this peer as owner AND served by it when no
+   download of the id is under way; with the owner named by the latest request otherwise (since the
+   repair of S26, 8b1d5d0) — and an id this peer is still downloading is announced with that owner
+   whether or not the peer holds a copy yet *)
 Theorem C03_snapshot_has_every_asset :
   forall pr c a v,
     class_enabled pr (KClass c) = true -> a_store pr !! akey (KClass c) a = Some v ->
-    In (MAsset c a (p_id pr)) (build_full_sync pr).2 /\
-    h_cache (build_full_sync pr).1 !! akey (KClass c) a = Some v.
+    (~ download_pending pr c a ->
+       In (MAsset c a (p_id pr)) (build_full_sync pr).2 /\
+       h_cache (build_full_sync pr).1 !! akey (KClass c) a = Some v) /\
+    (download_pending pr c a ->
+       exists o, In (a, o) (pending_of pr c) /\ latest_owner pr c a o /\
+                 In (MAsset c a o) (build_full_sync pr).2).
 Proof. exact snapshot_complete_asset. Qed.
+
+Theorem C03_snapshot_hands_on_pending_downloads :
+  forall pr c a,
+    class_enabled pr (KClass c) = true -> download_pending pr c a ->
+    exists o, In (a, o) (pending_of pr c) /\ latest_owner pr c a o /\
+              In (MAsset c a o) (build_full_sync pr).2.
+Proof. exact snapshot_complete_pending. Qed.
+
+Theorem C03_snapshot_asset_justified :
+  forall pr c a o,
+    In (MAsset c a o) (build_full_sync pr).2 ->
+    class_enabled pr (KClass c) = true /\
+    ((o = p_id pr /\ ~ download_pending pr c a /\
+      exists v, a_store pr !! akey (KClass c) a = Some v /\
+                h_cache (build_full_sync pr).1 !! akey (KClass c) a = Some v) \/
+     (In (a, o) (pending_of pr c) /\ latest_owner pr c a o)).
+Proof. exact snapshot_asset_justified. Qed.
 
 Theorem C03_snapshot_has_every_material :
   forall pr a v,
@@ -152,7 +169,6 @@ Print Assumptions V.C03_joiner_gets_current_value.
 Print Assumptions P.C03_joiner_gets_parent.
 Print Assumptions A.C03_joiner_gets_asset.
 Print Assumptions A.C03_joiner_gets_material.
-Print Assumptions A.C03_join_during_host_download_refuted.
 Print Assumptions C03_snapshot_has_every_entity.
 Print Assumptions C03_snapshot_has_every_link.
 Print Assumptions C03_snapshot_has_every_value.
